@@ -91,6 +91,10 @@ def plan(tier: str, seed: int) -> Plan:
         conds.append(Condition(f"gen:{spine}:{text}", "generic", H, "generic", {"query": q, "spine": spine, "maxn": 3},
                                T, required=False,
                                bounds=f"spine {spine}: 3 leaves int|str + 3 int leaves, array length<=3, member order/presence bits"))
+        if thorough or (q, spine) in catalogue.CORE_SELECTOR_QUERIES:
+            conds.append(Condition(f"gen-async:{spine}:{text}", "generic", H, "generic", {"query": q, "spine": spine, "maxn": 2, "route": "async"},
+                                   T, required=False,
+                                   bounds=f"as gen:*, the nodelist obtained through finditer_async (spine {spine}, array length<=2)"))
         if text not in {o.oid[6:] for o in obligations}:
             obligations.append(spelling_obligation(q))
     try:
